@@ -28,7 +28,7 @@ ALT = ['Oxidation|INFO:x', 'Obs:+5.5|INFO:y', 'Acetyl|Obs:+42.01']
 INFO = ['INFO:note']
 POISON = ['NotAMod', 'UNIMOD:999999', 'Formula:Zz2', 'Glycan:Foo', 'Obs:abc']
 
-FAMILIES = {'int': NUM_INT, 'float': NUM_FLOAT, 'unimod': UNIMOD, 'acc': ACC, 'formula': FORMULA,
+FAMILIES = {'poisonvals': POISON, 'int': NUM_INT, 'float': NUM_FLOAT, 'unimod': UNIMOD, 'acc': ACC, 'formula': FORMULA,
             'glycan': GLYCAN, 'obs': OBS, 'tag': TAG, 'alt': ALT, 'info': INFO}
 MASSABLE = ['int', 'float', 'unimod', 'acc', 'formula', 'glycan', 'obs', 'tag', 'alt']
 COMPABLE = ['unimod', 'acc', 'formula', 'glycan', 'tag']  # have an elemental composition
